@@ -268,6 +268,29 @@ def dateFillOp (req : Json) : Except String Json := do
     | none => Json.mkObj [("cls", "never")]
   return Json.mkObj [("step_ok", dateStepOk step), ("fill", out)]
 
+open SL.HistFill in
+/-- `{"op":"date_finish","step","offset","lo","hi","bucket_lo","bucket_hi"}`: `bucket_*` = the
+float step of `bucket_start` for each bound, computed by the caller -/
+def dateFinishOp (req : Json) : Except String Json := do
+  let step ← getInt req "step"
+  let offset ← getInt req "offset"
+  let lo ← getInt req "lo"
+  let hi ← getInt req "hi"
+  let blo ← getInt req "bucket_lo"
+  let bhi ← getInt req "bucket_hi"
+  let q : Int → Int → Int := fun d _ => if d = lo - offset then blo else bhi
+  let fuel : Nat := 20000
+  let legacyName : LegacyStart → String := fun l => match l with
+    | .key _ => "key" | .subOverflow => "sub-overflow" | .addOverflow => "add-overflow"
+  let fill : Json := match dateFinish q step offset lo hi fuel with
+    | none => Json.mkObj [("cls", "no-fill")]
+    | some (some (.past k)) => Json.mkObj [("cls", "past"), ("inserted", k)]
+    | some (some (.addOverflow k)) => Json.mkObj [("cls", "add-overflow"), ("inserted", k)]
+    | some none => Json.mkObj [("cls", "never")]
+  return Json.mkObj [("step_ok", dateStepOk step), ("fill", fill),
+    ("legacy_lo", Json.str (legacyName (legacyBucketStart q lo offset step))),
+    ("legacy_hi", Json.str (legacyName (legacyBucketStart q hi offset step)))]
+
 def handle (req : Json) : Except String Json := do
   let op ← getStr req "op"
   match op with
@@ -278,6 +301,7 @@ def handle (req : Json) : Except String Json := do
   | "rescore_drop" => rescoreDropOp req
   | "hist_fill" => histFillOp req
   | "date_fill" => dateFillOp req
+  | "date_finish" => dateFinishOp req
   | _ => throw s!"C16: unknown op {op}"
 
 end SL.Drv.C16
